@@ -1,6 +1,7 @@
 import Slu.Model.Refine
 import SluProofs.Lemmas.Lacon
 import SluProofs.Lemmas.Fold
+import SluProofs.Lemmas.FoldCongr
 /-
 C13 — Reported backward error is the true backward error of the returned X.
 
@@ -17,15 +18,6 @@ open Slu Slu.Lacon
 variable {K : Type} [Inhabited K]
 
 /-! ### the BERR formula -/
-
-theorem foldl_congr_mem {α β : Type} (f g : β → α → β) (l : List α) (b : β)
-    (h : ∀ a ∈ l, ∀ acc, f acc a = g acc a) : l.foldl f b = l.foldl g b := by
-  induction l generalizing b with
-  | nil => rfl
-  | cons a t ih =>
-    simp only [List.foldl_cons]
-    rw [h a List.mem_cons_self b]
-    exact ih _ (fun a' ha' acc => h a' (List.mem_cons_of_mem _ ha') acc)
 
 /-- the ratio of row `i` -/
 def ratio (Ar : Arith K Rat) (work : Array K) (rwork : Array Rat) (i : Nat) : Rat :=
